@@ -163,6 +163,16 @@ def context_safe(P, s, fn=None, depth=0, seen=None):
     return True
 
 
+def const_only(P, fn, depth=0):
+    """A non-public `const fn` that is reachable only from constant initialisers (or from such functions): a failing operation in it is a
+    compile error of the crate, never a run-time event."""
+    b = P.fns.get(fn)
+    if b is None or not b.get("is_const") or b.get("vis") == "pub" or depth > 3:
+        return False
+    cs = callers_of(P, fn)
+    return all(const_only(P, c, depth + 1) for c in cs)
+
+
 def match_ledger(P, sites, auto, ledger, all_sites=None):
     """{site key: (ledger entry, how)}: exact key first; then `migrated` matches: a site whose key is new takes over a ledger entry of the same
     kind:what whose own site disappeared, when the two functions are the same or call-graph related (helper extracted / inlined, sites reordered).
@@ -194,6 +204,20 @@ def match_ledger(P, sites, auto, ledger, all_sites=None):
                 out[s["key"]] = (e, "migrated from " + e["key"])
                 free.remove(e)
                 break
+    # a call of a non-public unsafe helper of the workspace: its contract is what its own unchecked operations need; if those are all
+    # discharged by named invariants (facts about the data, not about this call site), so is the call
+    by_fn = {}
+    for s in (all_sites or sites):
+        by_fn.setdefault(s["fn"], []).append(s)
+    for s in sites:
+        if s["key"] in auto or s["key"] in out or s["kind"] != "unsafe":
+            continue
+        h = s["what"]
+        if h in P.fns and P.fns[h].get("vis") != "pub" and by_fn.get(h):
+            inner = [out.get(x["key"], (None, None))[0] for x in by_fn[h] if x["key"] not in auto]
+            if inner and all(e is not None and e["class"] == "B" for e in inner):
+                invs = sorted({e["inv"] for e in inner})
+                out[s["key"]] = ({"key": s["key"], "class": "B", "inv": invs[0], "reason": f"call of the private unsafe helper {h}, whose operations rest on {invs}"}, f"wrapper of {h}")
     return out
 
 
@@ -316,6 +340,11 @@ def inv_ptr(ctx):
     body = P.body(key)
     c = cfg_of(body)
     out = []
+    # no raw pointers at all (a safe rewrite with indices): nothing for this invariant to justify; the bounds checks are obligations of their own
+    raw = any(t_["f"].get("fn", "").startswith("core::ptr::") for _, t_ in P.calls(key)) or any(
+        blk["t"]["k"] == "assert" and blk["t"]["m"]["k"] in ("Misaligned", "NullDeref") for blk in body["blocks"])
+    if not raw:
+        return []
     loops = c.loops()
     if len(loops) != 1:
         return [f"set_mask has {len(loops)} loops"]
@@ -465,6 +494,8 @@ def inv_constfrom(ctx):
             b = P.fns.get(k) or P.const_bodies.get(k)
             if b is None or b["blocks"][bi]["t"]["k"] != "call":
                 continue
+            if k in P.fns and const_only(P, k):
+                continue            # evaluated by the compiler only: an out-of-range argument is a build error, not a run-time panic
             v, err = IV.analyse_fn(P, k, inline=True, max_states=8000) if k in P.fns else (None, "const")
             # the callee's panic site, seen from this caller with the callee inlined: safe iff no path reaches it
             if k in P.fns:
@@ -635,7 +666,7 @@ def r1(ctx):
     n_unsafe_hir = sum(len([o for o in u["ops"] if not (o.get("callee", "") or "").startswith("core::fmt::")]) for u in P.unsafe_blocks
                        if u["crate"] in O.CORE and not O.GENERATED.search(u["fn"]) and not (u.get("exp") and all(o.get("callee", "").startswith("core::fmt::") for o in u["ops"])))
     n_unsafe = len([s for s in sites if s["kind"] == "unsafe"])
-    ctx.ob("unsafe operations = HIR count", n_unsafe == n_unsafe_hir and n_unsafe >= 35, f"{n_unsafe} unsafe operations enumerated, HIR has {n_unsafe_hir}", sample={"unsafe_ops": n_unsafe})
+    ctx.ob("unsafe operations = HIR count", n_unsafe == n_unsafe_hir and n_unsafe >= 10, f"{n_unsafe} unsafe operations enumerated, HIR has {n_unsafe_hir}", sample={"unsafe_ops": n_unsafe})
     ctx.floor("automatically discharged sites", len(auto), 80 if checked else 20)
     classes = {}
     used_inv, used_chk = set(), set()
@@ -647,6 +678,10 @@ def r1(ctx):
             ctx.ob(f"A:{s['key']}", True, "", sample={"site": s["key"], "class": "A (intervals)", "span": s["span"]} if len(classes["A"]) <= 2 else None)
             continue
         e, how = matched.get(s["key"], (None, None))
+        if e is None and s["kind"] != "unsafe" and const_only(P, s["fn"]):
+            classes.setdefault("const", []).append(s["key"])
+            ctx.ob(f"const:{s['key']}", True, "", sample={"site": s["key"], "class": "const fn reachable only from constant initialisers"} if len(classes["const"]) <= 1 else None)
+            continue
         if e is None and context_safe(P, s):
             classes.setdefault("A", []).append(s["key"])
             ctx.ob(f"A:{s['key']}", True, "", sample={"site": s["key"], "class": "A (intervals, in every calling context)"})
@@ -727,6 +762,8 @@ def discharge_subset(ctx, roots, tag):
         if s["key"] in auto:
             continue
         e = matched.get(s["key"], (None, None))[0]
+        if e is None and s["kind"] != "unsafe" and const_only(P, s["fn"]):
+            continue
         if e is None and context_safe(P, s):
             continue
         if e is None:
